@@ -385,13 +385,99 @@ fn relevant(s: u8, rook: bool) -> Vec<u8> {
     v
 }
 
-pub fn lattice_entries() -> u64 {
+pub fn slider_lattice_entries() -> u64 {
     (0..64u8).map(|s| (1u64 << relevant(s, true).len()) + (1u64 << relevant(s, false).len())).sum()
+}
+
+/// Ordered pairs (king square, slider square) on a common rank, file or diagonal.
+fn aligned_pairs() -> Vec<(u8, u8, bool)> {
+    let mut v = vec![];
+    for k in 0..64u8 {
+        for a in 0..64u8 {
+            if a == k {
+                continue;
+            }
+            let (df, dr) = ((file_of(a) - file_of(k)).abs(), (rank_of(a) - rank_of(k)).abs());
+            if df == 0 || dr == 0 {
+                v.push((k, a, true));
+            } else if df == dr {
+                v.push((k, a, false));
+            }
+        }
+    }
+    v
+}
+
+/// 6 variants per aligned pair: {open line, own piece between, enemy piece between} x {White, Black to move}
+pub fn ray_lattice_entries() -> u64 {
+    aligned_pairs().len() as u64 * 6
+}
+
+pub fn lattice_entries() -> u64 {
+    slider_lattice_entries() + ray_lattice_entries()
+}
+
+/// The mover's king on k, an enemy slider on an aligned square a, nothing / one own piece / one enemy
+/// piece between them: every entry of the ray and between tables that the check and pin computation
+/// (fresh and incremental) reads, for both colours.
+fn ray_lattice(e: u64, rng: &mut Rng) -> Option<Model> {
+    let pairs = aligned_pairs();
+    let (k, a, straight) = pairs[(e / 6) as usize % pairs.len()];
+    let variant = e % 6;
+    let us = (variant % 2) as u8;
+    let between_kind = variant / 2; // 0 open, 1 own, 2 enemy
+    let (sf, sr) = ((file_of(a) - file_of(k)).signum(), (rank_of(a) - rank_of(k)).signum());
+    let mut between: Vec<u8> = vec![];
+    let (mut f, mut r) = (file_of(k) + sf, rank_of(k) + sr);
+    while mk(f, r) != Some(a) {
+        between.push(mk(f, r)?);
+        f += sf;
+        r += sr;
+    }
+    for _ in 0..24 {
+        let mut m = Model::empty();
+        m.stm = us;
+        m.sq[k as usize] = Some((KING, us));
+        let kind = if rng.chance(1, 3) { QUEEN } else if straight { ROOK } else { BISHOP };
+        m.sq[a as usize] = Some((kind, us ^ 1));
+        if between_kind != 0 {
+            if between.is_empty() {
+                // adjacent squares: there is no "between"; fall back to the open line
+            } else {
+                let b = *rng.pick(&between);
+                let c = if between_kind == 1 { us } else { us ^ 1 };
+                let mut pk = [KNIGHT, PAWN, BISHOP, ROOK, QUEEN][rng.below(5) as usize];
+                if pk == PAWN && (rank_of(b) == 0 || rank_of(b) == 7) {
+                    pk = KNIGHT;
+                }
+                m.sq[b as usize] = Some((pk, c));
+            }
+        }
+        let free: Vec<u8> = (0..64u8).filter(|&q| m.sq[q as usize].is_none()).collect();
+        let ek = *rng.pick(&free);
+        m.sq[ek as usize] = Some((KING, us ^ 1));
+        // a little extra material elsewhere
+        for _ in 0..rng.below(3) {
+            let q = rng.below(64) as u8;
+            let c = rng.below(2) as u8;
+            put(&mut m, q, [KNIGHT, PAWN, BISHOP][rng.below(3) as usize], c);
+        }
+        m.half = rng.below(100) as u8;
+        m.full = 1 + rng.below(200) as u16;
+        if m.unsound().is_none() && m.checkers().count_ones() <= 2 {
+            return Some(m);
+        }
+    }
+    None
 }
 
 /// The position for lattice entry `e` (None when no sound arrangement was found in a few tries).
 pub fn lattice(e: u64, rng: &mut Rng) -> Option<Model> {
-    let mut rest = e % lattice_entries();
+    let e = e % lattice_entries();
+    if e >= slider_lattice_entries() {
+        return ray_lattice(e - slider_lattice_entries(), rng);
+    }
+    let mut rest = e;
     let mut pick = None;
     'outer: for rook in [true, false] {
         for s in 0..64u8 {
